@@ -335,3 +335,47 @@ func selectBad(family string, c crible) int {
 	delete(c, family)
 	return n
 }
+
+// ---- R-ALIASCMP: change detection against storage that aliases the caller's
+
+type view struct {
+	coords []int
+	own    []int
+	cache  map[int]int
+}
+
+// keeps the caller's slice and always invalidates
+func (v *view) SetGood(c []int) {
+	v.coords = c
+	v.cache = nil
+}
+
+// compares with its own copy
+func (v *view) SetCopyGood(c []int) {
+	if sameInts(v.own, c) {
+		return
+	}
+	v.own = append(v.own[:0], c...)
+	v.cache = nil
+}
+
+// compares with the caller's storage it kept
+func (v *view) SetBad(c []int) {
+	if sameInts(v.coords, c) {
+		return
+	}
+	v.coords = c
+	v.cache = nil
+}
+
+func sameInts(a, b []int) bool {
+	if len(a) != len(b) {
+		return false
+	}
+	for i := range a {
+		if a[i] != b[i] {
+			return false
+		}
+	}
+	return true
+}
